@@ -1,3 +1,36 @@
-/- C20 — property theorems over Qfx.Model.Session (placeholder being filled; see checklist at the end) -/
+/- C20 — keep-alive. First theorems (timer events); more in progress (DESIGN §5 C20). -/
 import Qfx.Spec.Session
-open Qfx Qfx.Sess Qfx.SessSpec
+open Qfx Qfx.Sess
+
+/-- a second PeerTimeout while a test request is pending ends the session (the disconnect bookkeeping is setState's) -/
+theorem C20_dead_peer (s : Sess) (h : s.st = .pendingIn) : (timeoutCore s .peerTimeout).2 = .latent := by
+  simp [timeoutCore, h]
+theorem C20_dead_peer_recovering (s : Sess) (st : List (Int × InMsg)) (c f : Int) (h : s.st = .pendingResend st c f) :
+    (timeoutCore s .peerTimeout).2 = .latent := by
+  simp [timeoutCore, h]
+
+/-- no heartbeat while a test request is pending -/
+theorem C20_no_heartbeat_while_pending (s : Sess) (h : s.st = .pendingIn) : timeoutCore s .needHeartbeat = (s, .pendingIn) := by
+  simp [timeoutCore, h]
+
+/-- PeerTimeout in normal operation: TestRequest "TEST", peer timer re-armed to 1.2 x HeartBtInt, state becomes pending -/
+theorem C20_peer_timeout_sends_test_request (s : Sess) (h : s.st = .inSession) :
+    timeoutCore s .peerTimeout = ((sendInReplyTo s (mkOut "1" [(112, "TEST")])).emit (.armPeer (1200 * (sendInReplyTo s (mkOut "1" [(112, "TEST")])).hb)), .pendingIn) := by
+  simp [timeoutCore, h, inSessionTimeout]
+
+/-- …and during recovery the recovery bookkeeping is carried into the pending state unchanged -/
+theorem C20_peer_timeout_keeps_recovery (s : Sess) (st : List (Int × InMsg)) (c f : Int) (h : s.st = .resend st c f) :
+    (timeoutCore s .peerTimeout).2 = .pendingResend st c f := by
+  simp [timeoutCore, h, inSessionTimeout]
+
+/-- NeedHeartbeat in normal operation sends one Heartbeat and stays -/
+theorem C20_heartbeat (s : Sess) (h : s.st = .inSession) : timeoutCore s .needHeartbeat = (sendInReplyTo s (mkOut "0" []), .inSession) := by
+  simp [timeoutCore, h, inSessionTimeout]
+
+/-- any inbound message cancels a pending test request without disturbing the recovery: the pending states process
+    messages exactly as the states they wrap -/
+theorem C20_pending_is_transparent_normal (s : Sess) (m : InMsg) (h : s.st = .pendingIn) : fixMsgInCore s m = inSessionFixMsgIn s m := by
+  simp [fixMsgInCore, h]
+theorem C20_pending_is_transparent_recovering (s : Sess) (m : InMsg) (st : List (Int × InMsg)) (c f : Int) (h : s.st = .pendingResend st c f) :
+    fixMsgInCore s m = resendFixMsgIn s st c f m := by
+  simp [fixMsgInCore, h]
